@@ -26,7 +26,9 @@ RULE = ("time grids (odd/even lengths 2..40, four sampling steps, zero / positiv
         "object given that basis, and the model given that basis; sample times as arrays, lists, tuples, Python ints and "
         "int arrays (1 s spacing), with_times given plain lists; bands of zero width; rms_voltage together with "
         "temperature and resistance; a callable amplitude answering with one number (repaired as F19); a derived "
-        "object shifted in place while other handles stay live; a case is non-trivial when the basis is non-empty; "
+        "object shifted in place while other handles stay live; handed-out traces (with_times results; the trace returned by "
+        "the first and by later Antenna.make_noise calls, also after clear(reset_noise=True)) modified in place by *=, /=, "
+        "filter_frequencies, shift, resample, set_buffers before noise / full_waveform / all_waveforms are requested again; a case is non-trivial when the basis is non-empty; "
         "distinct = distinct (class, grid, band, spec, uniqueness) tuples")
 LEVEL_TEXT = ("theorems (cosine-sum form of both classes, band membership, irfft = cosine sum for bins strictly between "
               "DC and Nyquist, half-weight Nyquist bin, periodic interpolation consistent iff the period is n*dt, unit "
@@ -476,6 +478,27 @@ def basis_ref(obj, cls, times, tt, k4corr):
     return (1 - w) * S[a] + w * S[a + 1]
 
 
+INPLACE_OPS = ["imul", "idiv", "filter", "shift", "resample", "buffers"]
+
+
+def apply_inplace(sig, op, dt):
+    """a documented in-place operation on a signal object the caller owns"""
+    if op == "imul":
+        sig *= 3
+    elif op == "idiv":
+        sig /= 2
+    elif op == "filter":
+        sig.filter_frequencies(lambda f: 1 / (1 + 1j * np.asarray(f, dtype=float) / 2.5e8), force_real=True)
+    elif op == "shift":
+        sig.shift(2.5 * dt)
+    elif op == "resample":
+        sig.resample(max(2, len(sig.times) // 2 + 1))
+    elif op == "buffers":
+        sig.set_buffers(leading=3 * dt, trailing=2 * dt)
+    _ = sig.values          # and the caller uses it
+    return sig
+
+
 def in_k4(case, nz):
     """FFT noise whose band contains the Nyquist bin of an even-length (uniqueness-extended) grid"""
     if case["cls"] != "fft" or len(nz.freqs) == 0:
@@ -662,6 +685,89 @@ def _oracle(inp):
                 "an object derived earlier changes after another derived object was shifted", [1])
         compare("handles", np.array(nz.with_times(times).values), ref, np.arange(n), tol,
                 "objects derived after another derived object was shifted depart from the basis waveform", [0])
+    # (3d) handed-out traces belong to the caller: with_times results are modified IN PLACE (scale, divide, filter,
+    #      shift, resample, set_buffers); the object they came from and the other derived objects are unaffected
+    if n >= 4 and inp.get("inplace"):
+        for op in inp["inplace"]:
+            keep = nz.with_times(times + dt)
+            victim = nz.with_times(times if op != "buffers" else times[1:-1])
+            apply_inplace(victim, op, dt)
+            compare("handed-out", np.array(keep.values), cos_sum(nz, cls, times + dt, t_ref), np.arange(n) + 1, tol * 1.1,
+                    "a with_times result changes after ANOTHER with_times result of the same noise object was modified in "
+                    "place (%s)" % op, [op, 1])
+            compare("handed-out", np.array(nz.with_times(times).values), ref, np.arange(n), tol,
+                    "with_times results requested after an earlier one was modified in place (%s) depart from the basis "
+                    "waveform" % op, [op, 0])
+            if np.max(np.abs(np.array(nz.values) - v)) > tol:
+                out.append(("handed-out", op, None, "the noise object's own values change after a with_times result was "
+                            "modified in place (%s)" % op, None))
+    # (3e) the same for an antenna: the trace returned by the FIRST make_noise call (the one that creates the noise
+    #      master; again the first one after clear(reset_noise=True)) and by later calls is the caller's; after an
+    #      in-place operation on it, later noise / full_waveform / all_waveforms are still the master's basis waveform
+    if n >= 4 and inp.get("inplace") and cls == "fft" and N and case["rms"] is not None:
+        from pyrex.antenna import Antenna
+        from pyrex.signals import Signal
+
+        def basis_dev(master, got, tt):
+            """-> (worst index, key) when `got` is not the waveform of the master's published basis at tt, else None"""
+            scale = master.rms * math.sqrt(2 / len(master.freqs)) * float(np.sum(np.abs(master.amps)))
+            tolm = 1e-9 * scale + 1e-300
+            r0 = basis_ref(master, "fft", times, tt, False)
+            if len(got) == len(tt) and np.max(np.abs(got - r0)) <= tolm:
+                return None
+            if len(got) == len(tt) and in_k4(case, master) and np.max(np.abs(got - basis_ref(master, "fft", times, tt, True))) <= tolm:
+                return (int(np.argmax(np.abs(got - r0))), "K4")
+            return (int(np.argmax(np.abs(got - r0))) if len(got) == len(tt) else -1, None)
+        np.random.seed(inp["seed"])
+        ant = Antenna([0.0, 0.0, -100.0], freq_range=(case["fmin"], case["fmax"]), noise_rms=case["rms"],
+                      unique_noise_waveforms=case["uniq"], noisy=True)
+        np.random.seed(inp["seed"])
+        twin = Antenna([0.0, 0.0, -100.0], freq_range=(case["fmin"], case["fmax"]), noise_rms=case["rms"],
+                       unique_noise_waveforms=case["uniq"], noisy=True)
+        twin_v = np.array(twin.make_noise(times).values)        # same random stream, never touched
+        np.random.seed(inp["seed"])
+        done = False
+        for round_, op in enumerate(inp["inplace"][:3]):
+            if done:
+                break
+            for which in ("first", "later"):
+                handed = ant.make_noise(times)                   # round 0 / after the reset: creates the master
+                master = ant._noise_master
+                if len(master.freqs) == 0:
+                    done = True
+                    break
+                apply_inplace(handed, op, dt)
+                win = times[1:] + dt
+                checks = [("make_noise(times)", np.array(ant.make_noise(times).values), times),
+                          ("make_noise(overlapping window)", np.array(ant.make_noise(win).values), win),
+                          ("full_waveform(times)", np.array(ant.full_waveform(times).values), times)]
+                ant.signals.append(Signal(times[:max(2, n // 2)], np.zeros(max(2, n // 2)), Signal.Type.voltage))
+                try:
+                    aw = ant.all_waveforms
+                    if len(aw) == 1:
+                        checks.append(("all_waveforms[0]", np.array(aw[0].values), np.array(aw[0].times)))
+                finally:
+                    ant.signals.clear()
+                    ant._all_waves, ant._triggers = [], []
+                for lab, got, tt in checks:
+                    dev = basis_dev(master, got, tt)
+                    if dev is not None:
+                        out.append(("handed-out", [round_, which, op, lab, dev[0]], "the master's basis waveform",
+                                    "after the trace returned by the %s Antenna.make_noise call%s was modified in place (%s), "
+                                    "%s is no longer the waveform of the noise master's published basis"
+                                    % (which, " after clear(reset_noise=True)" if round_ else "", op, lab), dev[1]))
+                        done = True
+                        break
+                if done:
+                    break
+                if round_ == 0 and which == "first":
+                    now = np.array(ant.make_noise(times).values)
+                    if len(now) != len(twin_v) or np.max(np.abs(now - twin_v)) > 1e-9 * (float(np.max(np.abs(twin_v))) + 1e-300):
+                        out.append(("handed-out", [op], None, "after the first handed-out trace was modified in place (%s) the "
+                                    "antenna's noise differs from that of a twin antenna with the same basis" % op, None))
+                        done = True
+                        break
+            ant.clear(reset_noise=True)
     # (4) no power outside the band (FFT class: periodogram over one full period)
     if cls == "fft" and N:
         nall = max(1, int(case["uniq"])) * n
@@ -893,7 +999,8 @@ def gen_oracle_input(run, i):
         case["spec"] = ["scalarfn", rng.choice([1.0, rng.uniform(0.3, 2.0)])]
     return {"case": case, "seed": rng.randrange(2 ** 31),
             "shifts": [rng.randint(-3 * case["n"], 3 * case["n"]), rng.randint(1, max(1, case["n"] - 1))],
-            "regrids": regrid_specs(run, case, 6), "replace_rms": rng.random() < 0.3, "replace_freqs": rng.random() < 0.3}
+            "regrids": regrid_specs(run, case, 6), "replace_rms": rng.random() < 0.3, "replace_freqs": rng.random() < 0.3,
+            "inplace": rng.sample(INPLACE_OPS, 3) if rng.random() < 0.5 else []}
 
 
 def report(run, inp, res):
